@@ -10,7 +10,7 @@
    The [*_index_ok], [*_store_ok], [*_records_ok], [plan_count_ok] premises are invariants of the keepers,
    named in Proofs/GenesisRT.v and proved separately from C12 (index / record invariants). *)
 From Hub Require Import Base.Prelude Base.Arith Model.Types Model.Keeper Model.Handlers Model.Hooks Model.Step Model.Genesis.
-From Hub Require Import Proofs.Tactics Proofs.Sorting Proofs.GenesisRT Proofs.GenesisReach.
+From Hub Require Import Proofs.Tactics Proofs.Sorting Proofs.KeysInv Proofs.Link Proofs.GenesisRT Proofs.GenesisReach Proofs.RecValid Proofs.RecValidClosed.
 
 (* the property as stated (Definition only: it is false) *)
 Definition C12_statement : Prop := C12_full_statement.
@@ -72,6 +72,18 @@ Proof. exact reachable_roundtrip. Qed.
 
 Theorem C12_reachable_genesis_defined : forall g ops s, run (init g) ops = RunOk s -> genesis_defined s.
 Proof. exact reachable_genesis_defined. Qed.
+
+(* THE EXPORTED GENESIS IS VALID, for every state reachable inside the configuration domain (valid parameter sets kept valid
+   by governance, validated inflation schedule, block times after the zero time): every stored record passes its module's
+   Validate -- an inductive invariant over every handler and hook, including the end-of-block price sweep, the removal of
+   emptied deposits, and every deadline written as now + delay -- so validate (export s) accepts every section. *)
+Theorem C12_reachable_export_valid : forall g ops s,
+  wf_genesis_rec g -> wf_hist wf_op_rec (init g) ops -> run (init g) ops = RunOk s ->
+  exists v s', roundtrip s = Ok (v, s') /\ verdict_ok v = true.
+Proof. exact reachable_export_valid. Qed.
+
+Theorem C12_records_valid_inductive : forall s o s', kinv s -> rec_inv s -> wf_op_rec s o -> step s o = OOk s' -> rec_inv s'.
+Proof. exact rec_step. Qed.
 
 (** what holds, module by module: records and rebuilt indices agree, the exported part validates *)
 
@@ -140,6 +152,8 @@ Print Assumptions C12_subscriptions_always_lost.
 Print Assumptions C12_roundtrip_defined.
 Print Assumptions C12_reachable_roundtrip.
 Print Assumptions C12_reachable_genesis_defined.
+Print Assumptions C12_reachable_export_valid.
+Print Assumptions C12_records_valid_inductive.
 Print Assumptions C12_partial_deposit.
 Print Assumptions C12_partial_provider.
 Print Assumptions C12_partial_node.
@@ -148,3 +162,13 @@ Print Assumptions C12_partial_session.
 Print Assumptions C12_partial_swap.
 Print Assumptions C12_partial_custommint.
 Print Assumptions C12_partial_params.
+
+(* non-vacuity of the domain premises: the witness genesis and history satisfy them (and the exported genesis of the
+   resulting state indeed validates: C12_nonvacuous_roundtrip) *)
+Example C12_domain_nonvacuous : wf_genesis_rec w_genesis /\ wf_hist wf_op_rec (init w_genesis) w_ops_session_gone.
+Proof.
+  split; [split; [vm_compute; reflexivity|split]|].
+  - repeat split; vm_compute; reflexivity.
+  - intros it Hin. vm_compute in Hin. inversion Hin.
+  - vm_compute. repeat split.
+Qed.
